@@ -35,6 +35,7 @@ PROPS = {
     "C06": dict(engine="e1", level="exploration"),
     "C07": dict(engine="e1", level="exploration"),
     "C08": dict(engine="e1", level="fault_enumeration", rule="e4", evaluations_counter="crash.states", distinct="states"),
+    "C33": dict(engine="e1", level="exploration", rule="e1-sync"),
     "C17": dict(engine="e3", level="exploration", rule="e3-derive"),
     "C18": dict(engine="e3", level="exploration", rule="e3-encrypt"),
     "C19": dict(engine="e3", level="exploration", rule="e3-service"),
@@ -56,6 +57,11 @@ ENGINES["e3"] = dict(race=False,
                            "entropy (seeded)", "wall clock (synctest fake clock)"])
 
 RULES = {
+    "e1-sync": "one run = a real publisher visor makes 3-12 (thorough 3-25) blocks; a real follower (visor + bolt + daemon handlers + gnet pool stepped through hooks H4/H5) "
+               "is connected only to 1-3 scripted relays that answer or ignore its GETB requests, send GIVB with the right / overlapping / gapped / shuffled / repeated / "
+               "forged / re-signed blocks, announce arbitrary heights, disconnect, deliver frames chunked or twice; per-run knobs: request count, response cap, message "
+               "length limit; then a fault-free phase with one honest full-chain peer; distinct = distinct (event kind, outcome) sequence; non-trivial = at least one "
+               "block appended via GIVB and at least one fault fired",
     "e3-service": "one run = one seeded history of 8-40 wallet-service operations (create of all four types with seeds from a pool of 3 to force duplicates, temporary wallets, "
                   "new/scan addresses, label, encrypt, decrypt, recover, unload, secret/non-secret updates; wrong passwords, unknown ids, failing callbacks); in half of the runs "
                   "a disk error with a short write hits a drawn step of a drawn save; after every operation memory is compared with what a fresh NewService loads; "
